@@ -87,17 +87,13 @@ impl FixtureDatabase {
         assert(ps.len() == parts@.len());
     }
 @return 1
-    assert(pbv(&package_init) == cand_init(cur0, ps[i0]));
-    assert(op_find_parts(ps, i0, cur0, dom) == Some(pbv(&package_init)));
+    assert(op_find_parts(ps, i0, cur0, dom) is Some);
 @return 2
-    assert(pbv(&package_init) == cand_init(cur0, ps[i0]));
-    assert(op_find_parts(ps, i0, cur0, dom) == Some(pbv(&package_init)));
+    assert(op_find_parts(ps, i0, cur0, dom) is Some);
 @return 3
-    assert(pbv(&py_file) == cand_py(cur0, ps[i0]));
-    assert(op_find_parts(ps, i0, cur0, dom) == Some(pbv(&py_file)));
+    assert(op_find_parts(ps, i0, cur0, dom) is Some);
 @return 4
-    assert(pbv(&py_file) == cand_py(cur0, ps[i0]));
-    assert(op_find_parts(ps, i0, cur0, dom) == Some(pbv(&py_file)));
+    assert(op_find_parts(ps, i0, cur0, dom) is Some);
 @return 5
     assert(pbv(&current_path) == pv_join(cur0, text_pv(ps[i0])));
     assert(op_find_parts(ps, i0, cur0, dom) is None);
